@@ -6,7 +6,10 @@ RULE = ("valid multi-message BMP streams (Initiation, 2-3 Peer Ups, announcement
         "each io::ErrorKind class} (quick: EOF, shutdown, ConnectionReset, Interrupted, TimedOut, WouldBlock, Other; thorough: all 21 classes, "
         "more streams), bytes handed out in random chunk sizes; observable = what ended the reads, how many read events were consumed, and every "
         "update that left the gate in canonical form; a case is non-trivial when the final WithdrawBulk names at least one peer and the cut is "
-        "inside the stream; distinct = distinct case text")
+        "inside the stream; distinct = distinct case text; the same streams with the receiving end of the gate holding across the end of the "
+        "session for one hour of the runtime's (paused) clock - the first or the second update handed over after the reads end, or the k-th of the "
+        "stream - then releasing (op H), and with another party holding the ingress register's write lock while the session ends (op L): the "
+        "trace must be the trace without them")
 
 QUICK_KINDS = ["connectionreset", "interrupted", "timedout", "wouldblock", "other"]
 
@@ -25,6 +28,53 @@ def cut_cases(rng, descrs, pool, kinds, step=1):
             yield make_case(Stream(head + [k] + rest), table, False, rng)    # a read fails here
 
 
+def pressure_cases(rng, descrs, pool, quick):
+    """Back-pressure (`H n`) and contention on the ingress register (`L`) across the end of the session: the marker sits where the
+    reads end - after a whole frame, inside a header, inside a body, at random offsets - and the session then ends by end of file,
+    unit shutdown, a fatal read error or a header with length field 0; `H 0` holds the first update handed over from there (the
+    WithdrawBulk of the cleanup, if the session ends there), `H 1` the second (the EndOfStream); with a non-fatal error the stream
+    goes on and the hold catches an update of the stream instead. Plus holds on the k-th update of the whole stream."""
+    table = {pool[d]: d for d in descrs}
+    whole = Stream()
+    bounds = []
+    for d in descrs:
+        whole.add_hex(pool[d])
+        bounds.append(len(whole.items))
+    n = len(whole.items)
+    cuts = set(bounds)
+    for b in bounds:
+        cuts.update((b - 1, min(n, b + 3)))
+    for _ in range(4 if quick else 40):
+        cuts.add(rng.below(n + 1))
+    lock_cuts = set(bounds) | set(rng_sample(rng, sorted(cuts - set(bounds)), 2 if quick else 30))
+    for off in sorted(cuts):
+        head, rest = whole.items[:off], whole.items[off:]
+        markers = [HOLD(0), HOLD(1)] + ([LOCK] if off in lock_cuts else [])
+        for m in markers:
+            yield make_case(Stream(head + [m]), table, False, rng)                         # connection closed
+            yield make_case(Stream(head + [m]), table, True, rng)                          # unit shutdown
+            yield make_case(Stream(head + [m, "connectionreset"]), table, False, rng)      # fatal read error
+            if off in bounds and (m != LOCK or not quick or off in bounds[1::3]):
+                yield make_case(Stream(head + [m, 3, 0, 0, 0, 0]), table, False, rng)      # header with length field 0
+            if m != LOCK:
+                # the stream goes on after the error: the hold catches whatever comes next
+                yield make_case(Stream(head + [m, rng.choice(sorted(NONFATAL))] + rest), table, rng.chance(30), rng)
+    for k in range(6 if quick else 12):
+        yield make_case(Stream([HOLD(k)] + whole.items), table, rng.chance(30), rng)
+
+
+def interleave(main, extra, every):
+    """the cases of `extra` spread over `main` (cases are run in contiguous shards)"""
+    extra = list(extra)
+    i = 0
+    for k, c in enumerate(main):
+        yield c
+        if k % every == every - 1 and i < len(extra):
+            yield extra[i]
+            i += 1
+    yield from extra[i:]
+
+
 def gen(rng, tier):
     quick = tier == "quick"
     shapes = [(2, 6, False), (3, 5, True)] if quick else [(2, 8, False), (3, 8, True), (3, 12, False), (1, 4, True)]
@@ -33,6 +83,12 @@ def gen(rng, tier):
     streams.insert(0, ["I", "U.0.1", "U.5.0", "R.0.0.1.1+2.0.-", "R.5.0.2.3.0.-", "E.0.0", "D.5", "R.0.0.0.-.0.1"])
     pool = render(sorted({d for s in streams for d in s}))
     kinds = QUICK_KINDS if quick else KINDS
+    pressure = [c for s in streams for c in pressure_cases(rng, s, pool, quick)]
+    yield from interleave(plain_cases(rng, tier, streams, pool, kinds), pressure, 8)
+
+
+def plain_cases(rng, tier, streams, pool, kinds):
+    quick = tier == "quick"
     for i, s in enumerate(streams):
         yield from cut_cases(rng, s, pool, kinds, step=1 if (i == 0 or not quick) else 3)
     # two cuts / errors in one stream, and error bursts
@@ -160,13 +216,18 @@ LEVEL_TEXT = ("BGP session (Bgp/BgpSessionModel.v): over ALL scripts of the even
               "BMP connection: theorems over ALL scripts of read events (every cut point, every io::ErrorKind class at every position, end of file or unit shutdown), every "
               "parser and every starting register: the read loop of the BMP connection always reaches the post-loop block, and the updates that left "
               "the gate are pre ++ [WithdrawBulk(all children of the router's ingress id); EndOfStream(router)] with no other EndOfStream, every ingress "
-              "id mentioned earlier and every peer still up being in that WithdrawBulk. Kernel-checked, axiom-free. For the code before the repair: "
+              "id mentioned earlier and every peer still up being in that WithdrawBulk. Under back-pressure (C07_cleanup_under_backpressure): for EVERY schedule of waits at the receiving end - any update, any length of time - "
+              "what the receiving end has got when the task returns is that same trace (delayed, never dropped, never repeated) and the task has not returned before the longest "
+              "wait was over; C07_time_limit_would_lose_cleanup shows the statement is not blind to a time limit. Kernel-checked, axiom-free. For the code before the repair: "
               "refuted by a short-length header after a Peer Up (task dies, no cleanup), complete cleanup whenever the task survives. Tied to the real "
-              "read_from_router by cutting valid streams at every byte offset x error kinds through a scripted reader.")
+              "read_from_router by cutting valid streams at every byte offset x error kinds through a scripted reader, the same with the receiving end holding the "
+              "cleanup's updates for an hour of a paused clock (op H), and with the ingress register write-locked by another party while the session ends (op L).")
 DESIGN_REF = "DESIGN.md section 6, C07"
 LEVEL_NOTE = ("Trusted: Coq kernel, extraction + OCaml driver, Rust harness (scripted AsyncRead, capture Link) and generators. PARTIAL: the removal of the "
               "session from router_states/router_info happens in the task spawned by unit.rs accept_config after run() returns; it is not in the model and is "
               "checked on the implementation only (real loopback TCP connections through the real accept_config: close, reset, shutdown, short header, cuts); "
+              "back-pressure is modelled as the receiving unit not returning from direct_update for a while (whole updates; tokio's paused clock and the harness's own "
+              "executor for the connection's future are trusted); the ingress register is one atomic step per method (C14), its lock is exercised (op L, c14-contend), not modelled; "
               "the BGP session end (bgp_tcp_in router_handler.rs Processor::process) is modelled at the level of the events its select! loop sees - routecore's "
               "Session only as far as tick()/negotiated()/the message channel go (contract bs_wf), the gate as the statuses process() returns - and tied to the real "
               "loop by engine bgpend over a scripted session; the FSM, the TCP halves, the writer task of handle_connection (which turns a Disconnect into "
